@@ -164,6 +164,9 @@ def build(config, history, comps, out_len, estimator=None, grid=None, operation=
     kw = dict(sa_kwargs or {})
     if config.get("margin") is not None:
         kw["margin"] = config["margin"]
+    for opt in ("dim_adaptive", "chebyshev_points", "use_volume_weighting", "force_balanced_refinement_tree"):
+        if config.get(opt) is not None:      # rarely used public constructor options (default: not passed at all)
+            kw[opt] = config[opt]
     sa = SA(a, b, version=config.get("version", 6), operation=op, rebalancing=config.get("rebalancing", True),
             rebalancing_safety_factor=config.get("safety", 0.1), print_level=LV, log_level=LV, **kw)
     eo = estimator if estimator is not None else make_scripted(history)
